@@ -121,7 +121,7 @@ TDU ==
           /\ UNCHANGED vars
 TPD ==
   /\ Ev("PD") /\ Consume /\ Same
-  /\ \/ Rec.op = "store" /\ Rec.set /\ T = mgrT /\ mpc \in {"in_m", "out_m"} /\ MergeUnoteD(U, Rec.val)
+  /\ \/ Rec.op = "store" /\ Rec.set /\ T = mgrT /\ mpc \in {"in_m", "out_m"} /\ (Fix => uarm[U]) /\ MergeUnoteD(U, Rec.val)
           /\ (("double_sibling" \in viol' /\ "double_sibling" \notin viol) => PrintT(<<"SIBDBL", xid>>))
      \/ Rec.op = "store" /\ Rec.set /\ T = mgrT /\ mpc = "hup_m" /\ MergeHup(U)
      \/ Rec.op = "xchg" /\ Rec.set /\ Rec.val = Val(pend[U]) /\ HStartE(U, FALSE)
